@@ -92,3 +92,10 @@ def unchanged_on(cond: str, include_tokens=True):
     if include_tokens:
         out.append(("unchanged-tokens", f"implies({cond}, ntokens(state) == old(ntokens(state)))"))
     return out
+
+
+# an uninterpreted predicate on rule functions: "this rule matches every line it is offered" (the paragraph fallback)
+specfun("AlwaysMatches", """
+def AlwaysMatches(fn):
+    return getattr(fn, "__name__", "") == "paragraph"
+""", result="bool", axiom="True")
